@@ -118,6 +118,16 @@ func record(c Case, o obs) {
 	forder = append(forder, o.sig)
 }
 
+// addCount adds n further occurrences of an already recorded signature.
+func addCount(sig string, n int) {
+	if n <= 0 {
+		return
+	}
+	fmu.Lock()
+	fcount[sig] += n
+	fmu.Unlock()
+}
+
 // rerun executes exactly one case and returns everything it observes.
 func rerun(c Case) []obs {
 	switch c.Phase {
